@@ -31,7 +31,9 @@ import (
 var knownReported int32
 var knownReportedDB int32
 
-func stopNow(res *vlib.Result) bool { return res.NViolations()-int(atomic.LoadInt32(&knownReported)) >= 18 }
+func stopNow(res *vlib.Result) bool {
+	return res.NViolations()-int(atomic.LoadInt32(&knownReported)) >= 18
+}
 
 var errInjectedOther = errors.New("c02: injected non-corruption error")
 var errInjectedCorrupt = lerrors.NewErrCorrupted(storage.FileDesc{}, errors.New("c02: injected corruption"))
@@ -119,18 +121,20 @@ func (f *faultyIndexer) step(g func() bool) bool {
 	}
 	return g()
 }
-func (f *faultyIndexer) First() bool        { return f.step(f.IteratorIndexer.First) }
-func (f *faultyIndexer) Last() bool         { return f.step(f.IteratorIndexer.Last) }
-func (f *faultyIndexer) Next() bool         { return f.step(f.IteratorIndexer.Next) }
-func (f *faultyIndexer) Prev() bool         { return f.step(f.IteratorIndexer.Prev) }
-func (f *faultyIndexer) Seek(k []byte) bool { return f.step(func() bool { return f.IteratorIndexer.Seek(k) }) }
-func (f *faultyIndexer) Valid() bool        { return f.err == nil && f.IteratorIndexer.Valid() }
-func (f *faultyIndexer) Error() error       { return f.err }
+func (f *faultyIndexer) First() bool { return f.step(f.IteratorIndexer.First) }
+func (f *faultyIndexer) Last() bool  { return f.step(f.IteratorIndexer.Last) }
+func (f *faultyIndexer) Next() bool  { return f.step(f.IteratorIndexer.Next) }
+func (f *faultyIndexer) Prev() bool  { return f.step(f.IteratorIndexer.Prev) }
+func (f *faultyIndexer) Seek(k []byte) bool {
+	return f.step(func() bool { return f.IteratorIndexer.Seek(k) })
+}
+func (f *faultyIndexer) Valid() bool  { return f.err == nil && f.IteratorIndexer.Valid() }
+func (f *faultyIndexer) Error() error { return f.err }
 
 // ---- cases ----
 type fuseSpec struct {
-	Fuse int  `json:"fuse"` // -1 = never
-	Kind int  `json:"kind"` // 1 corruption, 2 other
+	Fuse int  `json:"fuse"`           // -1 = never
+	Kind int  `json:"kind"`           // 1 corruption, 2 other
 	Born bool `json:"born,omitempty"` // failed from birth (iterator.NewEmptyIterator(err)); data iterators only
 }
 
